@@ -1,6 +1,7 @@
 import ParryModel.Proto
 import ParryModel.C19.Model
 import ParryModel.C19.DriverTopo
+import ParryModel.C19.DriverExt
 import Std.Data.HashMap
 /-! C19 protocol handlers. -/
 namespace C19
@@ -350,6 +351,8 @@ def handler (fn : String) : Option Handler :=
               near (rabs p.x) H.x && near (rabs p.y) H.y && near (rabs p.z) H.z
           | none => "fail unparsable-output")
         | none, _ => "skip bad-args" }
-  | _ => TopoDriver.handler fn
+  | _ => match TopoDriver.handler fn with
+    | some h => some h
+    | none => Ext.handler fn
 
 end C19
